@@ -718,7 +718,12 @@ class Exec:
             return VInt(d, 64, True)
         if isinstance(v, VBool):
             return VInt(z3.If(v.e, z3.BitVecVal(1, 64), z3.BitVecVal(0, 64)), 64)
-        raise Refuse('discriminant of %r' % (v,))
+        if v is UNINIT:
+            # zero-sized single-variant enums are never written in MIR
+            tab = self.prog.enums.get(base_ident(ty) if ty else '')
+            if tab and len(tab) == 1:
+                return VInt(list(tab.values())[0] & ((1 << 64) - 1), 64, True)
+        raise Refuse('discriminant of %r (%s)' % (v, ty))
 
     def variant_count(self, ty):
         b = base_ident(ty) if ty else ''
